@@ -105,7 +105,7 @@ class _TrioState:
                         self.scope.cancel()
                     return
                 continue
-            await trio.sleep_until(nxt - w.t0)
+            await trio.sleep_until(nxt - w.clock.start)
             if w.apply_due():
                 self.wake()
 
@@ -131,6 +131,7 @@ class _TrioState:
             self.running = False
             _ = w.clock.now  # freeze the last virtual time
             w.clock.mock = None
+            w.clock.start = w.clock.now  # a later trio.run() starts a new mock clock at 0: continue from here
         if self.quiescent:
             raise Quiescent
 
